@@ -113,6 +113,32 @@ enum Op {
     Barrier(usize),
     CallOnce(usize, usize),
     IsCompleted(usize),
+    ASpawn(usize),
+    Await(usize),
+    Abort(usize),
+    Detach(usize),
+    AYield,
+    BlockOn(usize),
+    IsFinished(usize),
+}
+
+#[derive(Clone, Copy, PartialEq, Eq)]
+enum Kind {
+    Thread,
+    Closure,
+    Task,
+    BlockOn,
+}
+
+/// Runs a future that is known never to be Pending (a thread body: its awaits are block_on calls).
+fn drive_ready<F: std::future::Future>(f: F) -> F::Output {
+    let mut f = Box::pin(f);
+    let waker = std::task::Waker::noop();
+    let mut cx = std::task::Context::from_waker(waker);
+    match f.as_mut().poll(&mut cx) {
+        std::task::Poll::Ready(v) => v,
+        std::task::Poll::Pending => panic!("vharness: a thread body suspended"),
+    }
 }
 
 enum Tx {
@@ -214,6 +240,13 @@ fn parse_op(w: &str) -> Op {
             Op::CallOnce(parts[0].parse().unwrap(), parts[1].parse().unwrap())
         }
         "ic" => Op::IsCompleted(num(2)),
+        "as" => Op::ASpawn(num(2)),
+        "aw" => Op::Await(num(2)),
+        "ab" => Op::Abort(num(2)),
+        "dh" => Op::Detach(num(2)),
+        "ay" => Op::AYield,
+        "bo" => Op::BlockOn(num(2)),
+        "if" => Op::IsFinished(num(2)),
         _ if w.starts_with('a') => {
             let parts: Vec<&str> = w.split('.').collect();
             let a = parts[0][1..].parse::<usize>().unwrap();
@@ -297,12 +330,19 @@ fn lock_code<G, P>(r: Result<G, std::sync::PoisonError<P>>, unwrap: impl FnOnce(
 }
 
 fn run_body(p: Arc<Prog>, objs: Arc<Vec<Obj>>, b: usize) {
-    run_ops(p, objs, b, true)
+    drive_ready(run_ops(p, objs, b, Kind::Thread));
 }
 
-fn run_ops(p: Arc<Prog>, objs: Arc<Vec<Obj>>, b: usize, is_thread: bool) {
+fn run_ops(p: Arc<Prog>, objs: Arc<Vec<Obj>>, b: usize, kind: Kind) -> std::pin::Pin<Box<dyn std::future::Future<Output = u64>>> {
+    Box::pin(run_ops_inner(p, objs, b, kind))
+}
+
+async fn run_ops_inner(p: Arc<Prog>, objs: Arc<Vec<Obj>>, b: usize, kind: Kind) -> u64 {
     let objs_ref: &Vec<Obj> = &objs;
-    if !is_thread {
+    let real_await = kind == Kind::Task || kind == Kind::BlockOn;
+    let mut ahandles: Vec<Option<shuttle::future::JoinHandle<u64>>> = Vec::new();
+    let mut atids: Vec<usize> = Vec::new();
+    if kind == Kind::Closure {
         log_op(30, &[]);
     }
     // guards are always released newest first, also when the body unwinds
@@ -477,8 +517,62 @@ fn run_ops(p: Arc<Prog>, objs: Arc<Vec<Obj>>, b: usize, is_thread: bool) {
             Op::CallOnce(o, j) => {
                 let Obj::Once(once) = &objs_ref[o] else { panic!("vharness: not a once") };
                 let (p2, o2) = (p.clone(), objs.clone());
-                once.call_once(move || run_ops(p2, o2, j, false));
+                once.call_once(move || {
+                    drive_ready(run_ops(p2, o2, j, Kind::Closure));
+                });
                 log_op(28, &[]);
+            }
+            Op::ASpawn(j) => {
+                let (p2, o2) = (p.clone(), objs.clone());
+                let h = shuttle::future::spawn_local(async move { run_ops(p2, o2, j, Kind::Task).await });
+                // the task id of the new task is the number of tasks created so far; read it back from the handle's debug output is not possible,
+                // so take it from the engine: the most recently created task
+                let tid = shuttle_engine::runtime::execution::ExecutionState::with(|s| {
+                    let mut n = 0usize;
+                    while s.try_get(TaskId::from(n)).is_some() {
+                        n += 1;
+                    }
+                    n - 1
+                });
+                ahandles.push(Some(h));
+                atids.push(tid);
+                log_op(31, &[tid as u64]);
+            }
+            Op::Await(h) => {
+                let jh = ahandles.get_mut(h).and_then(|x| x.take()).expect("vharness: bad async handle");
+                let r = if real_await { jh.await } else { shuttle::future::block_on(jh) };
+                match r {
+                    Ok(v) => log_op(32, &[0, v]),
+                    Err(_) => log_op(32, &[1]),
+                }
+            }
+            Op::Abort(h) => {
+                let jh = ahandles.get(h).and_then(|x| x.as_ref()).expect("vharness: bad async handle");
+                jh.abort();
+                log_op(33, &[atids[h] as u64]);
+            }
+            Op::Detach(h) => {
+                let jh = ahandles.get_mut(h).and_then(|x| x.take()).expect("vharness: bad async handle");
+                drop(jh);
+                log_op(34, &[atids[h] as u64]);
+            }
+            Op::AYield => {
+                if real_await {
+                    shuttle::future::yield_now().await;
+                } else {
+                    shuttle::future::block_on(shuttle::future::yield_now());
+                }
+                log_op(35, &[]);
+            }
+            Op::BlockOn(j) => {
+                log_op(36, &[j as u64]);
+                let (p2, o2) = (p.clone(), objs.clone());
+                shuttle::future::block_on(run_ops(p2, o2, j, Kind::BlockOn));
+                log_op(36, &[]);
+            }
+            Op::IsFinished(h) => {
+                let jh = ahandles.get(h).and_then(|x| x.as_ref()).expect("vharness: bad async handle");
+                log_op(37, &[jh.is_finished() as u64]);
             }
             Op::IsCompleted(o) => {
                 let Obj::Once(once) = &objs_ref[o] else { panic!("vharness: not a once") };
@@ -593,7 +687,7 @@ fn run_ops(p: Arc<Prog>, objs: Arc<Vec<Obj>>, b: usize, is_thread: bool) {
             }
         }
     }
-    if is_thread {
+    if kind == Kind::Thread || kind == Kind::Task {
         log_op(9, &[]);
     }
     // guards still held are dropped newest first, before the thread's epilogue
@@ -613,6 +707,11 @@ fn run_ops(p: Arc<Prog>, objs: Arc<Vec<Obj>>, b: usize, is_thread: bool) {
             }
         }
     }
+    // JoinHandles of spawned futures still owned are dropped (detached) after the guards
+    for h in ahandles.iter_mut() {
+        drop(h.take());
+    }
+    b as u64
 }
 
 fn classify(payload: Box<dyn std::any::Any + Send>) -> String {
